@@ -40,6 +40,13 @@ def verify_functions(qualnames, repo=None, second_backend=False, th=None, reg=No
         except TargetMissing as exc:
             info['status'] = 'proof-lost'
             info['reason'] = str(exc)
+    only = os.environ.get('PYVC_ONLY')
+    if only:
+        keep = [o for o in allobls if only in o.id or only in o.text]
+        for o in allobls:
+            if o not in keep:
+                o.status, o.backend, o.seconds = 'unsat', 'skipped', 0.0
+        allobls = keep
     solve.discharge(th, allobls, second_backend=second_backend)
     vpoints = [p for info in report.values() for p in info.get('vac_points', [])]
     vres = solve.vacuity(th, vpoints)
